@@ -50,6 +50,18 @@ def tab1(ctx, c):
         for fl, want in exp.items():
             c.check(r.flags[fl] == want, "flag:%s.%s" % (m, fl), str(want), "%s=%s (reference %s)" % (fl, r.flags[fl], want),
                     "%s: flag %s is %s, the MC6809 reference implies %s" % (m, fl, r.flags[fl], want), where)
+    # the directive rows: each role flag belongs to one directive (the passes look the flags up, not the mnemonics)
+    PSEUDO_FLAGS = {"is_origin": {"ORG"}, "is_name": {"NAM"}, "is_pseudo_define": {"EQU"}, "is_include": {"INCLUDE"}, "is_string_define": {"FCC"},
+                    "is_multi_byte": {"FCB"}, "is_multi_word": {"FDB"}}
+    for r in rows:
+        if not r.flags["is_pseudo"]:
+            continue
+        for fl, owners in PSEUDO_FLAGS.items():
+            want = r.mnemonic in owners
+            if fl in r.flags:
+                c.check(bool(r.flags[fl]) == want, "flag:%s.%s" % (r.mnemonic, fl), str(want), "%s=%s (reference %s)" % (fl, r.flags[fl], want),
+                        "%s: flag %s is %s; the only directive with that role is %s (is_origin makes the final scan take the statement's address for the program's load address, "
+                        "is_name its operand for the file name ...)" % (r.mnemonic, fl, r.flags[fl], "/".join(sorted(owners))), "%s:%d" % (mod.rel, r.node.lineno))
     for m in sorted(ref):
         if m not in eff:
             c.finding("row:%s" % m, "mnemonic-missing", "MC6809 mnemonic %s has no row in INSTRUCTIONS" % m, mod.rel)
